@@ -16,6 +16,7 @@ func init() {
 			"and the rollback — which declares the transaction absent — is never taken once the meta write has been issued (this last rule has one KNOWN finding on the current tree: the fdatasync error after the meta writeAt). " +
 			"NOT decided: that the reloaded free list equals the committed one, reader snapshots across the failure, behaviour after reopen (value-level / dynamic).",
 		Run: func(c *Ctx) {
+			ruleReloadGoesThroughRead(c, "C08.R10") // "leaves the database usable": the free list after a failed commit is the committed one, read the way Open reads it
 			c09R5(c, "C08.R9") // the reload after a failed commit re-initialises a POPULATED free list: Init must forget every span (seed C08d)
 			c08R1(c, "C08.R1")
 			c08R2(c, "C08.R2")
